@@ -51,6 +51,14 @@ type TxnSpec struct {
 	Causal      bool   `json:"causal"`
 	Ops         []Op   `json:"ops"`
 	Finish      string `json:"finish"` // commit (default) | rollback
+	FilterKeys  []string `json:"filter_keys"` // C06: txn.SetKVFilter declaring the buffer entries of these keys unnecessary
+}
+
+// keyFilter is a transaction.KVFilter that declares every buffer entry of the listed keys unnecessary (C06)
+type keyFilter struct{ keys map[string]bool }
+
+func (f keyFilter) IsUnnecessaryKeyValue(k, v []byte, flags kv.KeyFlags) (bool, error) {
+	return f.keys[string(k)], nil
 }
 type Fault struct {
 	At   int    `json:"at"`
@@ -309,6 +317,13 @@ func (e *env) begin(st *tikv.KVStore, cid string, spec *TxnSpec) (*transaction.K
 		txn.SetEnable1PC(true)
 	}
 	txn.SetCausalConsistency(spec.Causal)
+	if len(spec.FilterKeys) > 0 {
+		fk := keyFilter{keys: map[string]bool{}}
+		for _, k := range spec.FilterKeys {
+			fk.keys[k] = true
+		}
+		txn.SetKVFilter(fk)
+	}
 	e.trace.add(Event{Kind: "begin", Client: cid, F: map[string]interface{}{"start": txn.StartTS(), "mode": spec.Mode, "pessimistic": spec.Pessimistic, "causal": spec.Causal, "call_seq": callSeq}})
 	return txn, nil
 }
@@ -490,6 +505,18 @@ func runProgram(sc *Scenario, e *env, out map[string]interface{}) {
 		}
 		e.gates["c9"].waitQuiet(30*time.Millisecond, 5*time.Second)
 	}
+	if len(sc.Faults) > 0 {
+		// C06: fabricated region errors (never a loss) on the n-th request of client c1, counted from its first request
+		_ = e.store("c1")
+		if g := e.gates["c1"]; g != nil {
+			for _, f := range sc.Faults {
+				if strings.HasPrefix(f.Kind, "regionerr:") {
+					g.plan.faults[f.At] = f.Kind
+				}
+			}
+			g.plan.active.Store(true)
+		}
+	}
 	record := func(i int, st Step, res map[string]interface{}) {
 		res["i"] = i
 		res["t"] = st.T
@@ -499,8 +526,12 @@ func runProgram(sc *Scenario, e *env, out map[string]interface{}) {
 		smu.Unlock()
 		e.trace.add(Event{Kind: "api", Client: clientOf(st.T), F: res})
 	}
+	progStart := time.Now()
 	exec := func(i int, st Step) {
 		res := map[string]interface{}{}
+		// wall-clock window of the call in ms since the program started (C06: admissibility of lock-expiry decisions)
+		res["t0_ms"] = float64(time.Since(progStart).Microseconds()) / 1000.0
+		defer func() { res["t1_ms"] = float64(time.Since(progStart).Microseconds()) / 1000.0 }()
 		pt := txns[st.T]
 		cid := clientOf(st.T)
 		store := e.store(cid)
